@@ -47,6 +47,29 @@ def check_binary_queries(case):
             if np.any(bad):
                 i = int(np.argmax(bad))
                 out.fail("driving_force_at_interface", "T=%r: x_alpha(g=%r) = %r but the driving force there is %r" % (T, gv[i], xv[i], dg[i]), dev=float(abs(dg[i] - gv[i])))
+        # the pairwise array form: (T_i, g_i) pairs with temperatures in any order (cooling sequences, repeats)
+        pairs = case.get("pairs") or []
+        if len(pairs) >= 2:
+            Tp = np.array([q[0] for q in pairs], dtype=float)
+            gp = np.array([q[1] for q in pairs], dtype=float)
+            Tp0, gp0 = Tp.copy(), gp.copy()
+            xp, xpb = th.getInterfacialComposition(Tp, gp)
+            if Tp.tobytes() != Tp0.tobytes() or gp.tobytes() != gp0.tobytes():
+                out.fail("argument_modified", "getInterfacialComposition modified the temperature / Gibbs-Thomson arrays passed to it")
+            xp = np.atleast_1d(xp).astype(float)
+            if xp.shape != Tp0.shape:
+                out.fail("driving_force_at_interface", "pairwise call with %d (T, g) pairs returned %r values" % (len(Tp0), xp.shape), array_form=True)
+            else:
+                okp = xp != -1
+                if np.any(okp):
+                    dgp, _ = th.getDrivingForce(xp[okp], Tp0[okp], removeCache=True)
+                    dgp = np.atleast_1d(dgp).astype(float)
+                    badp = np.abs(dgp - gp0[okp]) > 1e-3 * gp0[okp] + 1.05
+                    if np.any(badp):
+                        i = int(np.argmax(badp))
+                        out.fail("driving_force_at_interface", "pairwise array call T=%r g=%r: element %d: x_alpha = %r but the driving force at (x_alpha, T=%r) is %r instead of %r"
+                                 % (Tp0.tolist(), gp0.tolist(), int(np.nonzero(okp)[0][i]), xp[okp][i], Tp0[okp][i], dgp[i], gp0[okp][i]), dev=float(abs(dgp[i] - gp0[okp][i])), array_form=True)
+                out.label("pairwise_array_form" + ("_unsorted" if np.any(np.diff(Tp0) < 0) or len(set(Tp0.tolist())) < len(Tp0) else ""))
         xeq, _ = th.getInterfacialComposition(T, 0)
         xeq = float(xeq)
         if xeq > 0:
@@ -248,7 +271,11 @@ def _query_case(draw):
     ng = draw(st.integers(2, 7))
     g = [0.0 if draw(st.integers(0, 5)) == 5 else 10 ** draw(st.floats(0, 5)) for _ in range(ng)]
     sup = [draw(st.sampled_from([-0.5, -0.2, -0.05, 0.05, 0.05, 0.3, 1.0, 5.0, 20.0])) for _ in range(draw(st.integers(2, 5)))] + [10 ** draw(st.floats(-1.3, 1.5))]
-    return {"T": draw(st.floats(500.0, 900.0)), "g": g, "super": sup}
+    case = {"T": draw(st.floats(500.0, 900.0)), "g": g, "super": sup}
+    if draw(st.booleans()):
+        Ts = [draw(st.floats(500.0, 900.0)) for _ in range(draw(st.integers(1, 3)))]
+        case["pairs"] = [[draw(st.sampled_from(Ts)), 10 ** draw(st.floats(0.0, 4.0))] for _ in range(draw(st.integers(2, 5)))]
+    return case
 
 
 @st.composite
@@ -312,7 +339,7 @@ PREDICATES = {"multicomponent_strain_energy_counted_twice": pred_multi_strain}
 def clauses():
     cl = [
         Clause("binary_queries", _query_case, check_binary_queries, quick=160, thorough=6000, shrink=False,
-               rule="generator: Al-Zr, T in [500,900] K, 2-7 Gibbs-Thomson energies in {0, 1..1e5} J/mol, 3-6 relative supersaturations in [-0.5, 30]; "
+               rule="generator: Al-Zr, T in [500,900] K, 2-7 Gibbs-Thomson energies in {0, 1..1e5} J/mol, 3-6 relative supersaturations in [-0.5, 30], optionally 2-5 (T, g) pairs over 1-3 temperatures in any order for the pairwise array form; "
                     "oracle: dG(x_alpha(T,g),T) = g, x_alpha monotone in g, sentinel monotone, sign change at the planar solvus, dG increasing in x, four methods agree in sign, three in value (offset), curvature limit; non-trivial: >= 2 stable Gibbs-Thomson points"),
         Clause("model_rcrit", _model_case, check_model, quick=160, thorough=3000, shrink=False,
                rule="generator: (1 in 12: Al-Zr / Ni-Al-Cr on the shipped databases) toy binary (1-2 phases, all site types and shapes, constant strain energy) and toy ternary scenarios at constant temperature, 1 in 3 followed by a change of an interfacial or grain-boundary energy, reset() and a second run on the same model; observer after every step: boundaries beyond one class width above (below) the reported critical radius grow (shrink); non-trivial: >= 5 steps with judged boundaries on both sides"),
